@@ -1,6 +1,7 @@
 package sorting
 
 import (
+	"math"
 	"strconv"
 )
 
@@ -15,14 +16,16 @@ func ByName(a, b string) bool {
 func ByNameSmart(a, b string) bool {
 	v0, err0 := strconv.ParseFloat(a, 64)
 	v1, err1 := strconv.ParseFloat(b, 64)
-	if err0 == nil && err1 == nil {
+	num0 := err0 == nil && !math.IsNaN(v0) // "NaN" parses, but has no place in an order by magnitude: it sorts as text
+	num1 := err1 == nil && !math.IsNaN(v1)
+	if num0 && num1 {
 		if v0 != v1 {
 			return v0 < v1
 		}
 		return a < b // same number, different spelling
 	}
-	if (err0 == nil) != (err1 == nil) { // numbers sort before text, which keeps the order transitive
-		return err0 == nil
+	if num0 != num1 { // numbers sort before text, which keeps the order transitive
+		return num0
 	}
 	return a < b
 }
